@@ -265,9 +265,12 @@ impl LexiconReader {
         self.num_system = num;
     }
 
-    pub fn preload_pos(&mut self, grammar: &Grammar) {
+    /// Registers first `num_system` POS of the grammar as already existing.
+    /// Only POS of the system dictionary itself can be referred from the user dictionary,
+    /// ones registered by plugins or other user dictionaries get different ids on the next load.
+    pub fn preload_pos(&mut self, grammar: &Grammar, num_system: usize) {
         assert_eq!(self.pos.len(), 0);
-        for (i, pos) in grammar.pos_list.iter().enumerate() {
+        for (i, pos) in grammar.pos_list.iter().take(num_system).enumerate() {
             let key = StrPosEntry::from_built_pos(pos);
             self.pos.insert(key, i as u16);
         }
